@@ -1,7 +1,8 @@
 // C02 — each stream task receives its selected points exactly once, in order.
 //
 // Generator: histories of start/stop/delete/restart of stream tasks (1-3 from() nodes each with
-// optional database/retentionPolicy/measurement/where filters, generated dbrp sets) interleaved
+// optional database/retentionPolicy/measurement/where filters - comparisons on the field v and
+// presence conditions built from isPresent() -, generated dbrp sets) interleaved
 // with writes over 2 databases x 2 retention policies x 3 measurements, on one TaskMaster.
 // Oracle: routing model. Observer tasks that run for the whole history must receive exactly the
 // matching subsequence; tasks started and stopped on the way must receive strictly increasing
@@ -35,6 +36,26 @@ type From struct {
 	// Parent k > 0: this from() is chained below from() number k-1 of the task (which keeps its own
 	// log() child): it sees what the parent selects and selects from that
 	Parent int `json:"parent,omitempty"`
+	// Pres k > 0: a further .where() on the same from() that selects by the PRESENCE of a field or
+	// tag (presConds[k-1]); such a condition is defined on points that lack what it refers to
+	Pres int `json:"pres,omitempty"`
+}
+
+// presence conditions: lambda text and the reference model (hasV: the point carries the field v;
+// otherwise it carries the field u; every point carries the tag src and none carries host/w)
+var presConds = []struct {
+	lambda string
+	sel    func(hasV bool) bool
+}{
+	{`isPresent("v")`, func(hasV bool) bool { return hasV }},
+	{`!isPresent("v")`, func(hasV bool) bool { return !hasV }},
+	{`isPresent("u")`, func(hasV bool) bool { return !hasV }},
+	{`!isPresent("u")`, func(hasV bool) bool { return hasV }},
+	{`!isPresent("host")`, func(hasV bool) bool { return true }},
+	{`isPresent("src")`, func(hasV bool) bool { return true }},
+	{`isPresent("w")`, func(hasV bool) bool { return false }},
+	{`isPresent("v") OR isPresent("u")`, func(hasV bool) bool { return true }},
+	{`isPresent("src") AND !isPresent("u")`, func(hasV bool) bool { return hasV }},
 }
 
 type TaskDef struct {
@@ -68,7 +89,7 @@ type Case struct {
 	Ops       []Op      `json:"ops"`
 }
 
-const rule = "rapid: histories (<=25 steps) of start/stop/delete/restart of up to 4 stream tasks (1-3 from() nodes with db/rp/measurement/where filters - conditions given inline or through a lambda variable shared by several from() nodes, one or two where() per node, from() nodes chained below another from() that keeps its own consumer -, generated dbrp sets) and writes over 2 dbs x 2 rps x 3 measurements (with the retention policy named or left to the task master's default); 2 generated observer tasks plus a universal one run throughout; " +
+const rule = "rapid: histories (<=25 steps) of start/stop/delete/restart of up to 4 stream tasks (1-3 from() nodes with db/rp/measurement/where filters - conditions given inline or through a lambda variable shared by several from() nodes, one or two where() per node, a further where() that selects by the presence of a field/tag with isPresent() - negated, on fields some or all points lack -, from() nodes chained below another from() that keeps its own consumer -, generated dbrp sets) and writes over 2 dbs x 2 rps x 3 measurements (with the retention policy named or left to the task master's default); 2 generated observer tasks plus a universal one run throughout; " +
 	"oracle: routing model (exact for observers; exactly-once/in-order/only-matching/nothing-missed for tasks started and stopped on the way); non-trivial = >=2 tasks with different selections enabled at once and >=1 start/stop between writes; distinct by case hash"
 
 var dbrpUniverse = []kapacitor.DBRP{{Database: "d0", RetentionPolicy: "r0"}, {Database: "d0", RetentionPolicy: "r1"}, {Database: "d1", RetentionPolicy: "r0"}, {Database: "d1", RetentionPolicy: "r1"}}
@@ -109,6 +130,9 @@ func genDef(t *rapid.T) TaskDef {
 		}
 		if i > 0 && rapid.IntRange(0, 3).Draw(t, "chained") == 0 {
 			f.Parent = 1 + rapid.IntRange(0, i-1).Draw(t, "parent")
+		}
+		if rapid.IntRange(0, 3).Draw(t, "haspres") == 0 {
+			f.Pres = 1 + rapid.IntRange(0, len(presConds)-1).Draw(t, "pres")
 		}
 		d.Froms = append(d.Froms, f)
 	}
@@ -197,6 +221,9 @@ func (d TaskDef) script(id string) string {
 		if f.W2 > 0 {
 			fmt.Fprintf(&s, ".where(lambda: \"v\" != %d)", f.W2-1)
 		}
+		if f.Pres > 0 && f.Pres <= len(presConds) {
+			fmt.Fprintf(&s, ".where(lambda: %s)", presConds[f.Pres-1].lambda)
+		}
 		if chained {
 			fmt.Fprintf(&s, "\nf%d", i)
 		}
@@ -248,6 +275,9 @@ func (f From) matches(w written) bool {
 		return false
 	}
 	if f.W2 > 0 && (w.noV || w.v == int64(f.W2-1)) {
+		return false
+	}
+	if f.Pres > 0 && f.Pres <= len(presConds) && !presConds[f.Pres-1].sel(!w.noV) {
 		return false
 	}
 	return true
@@ -482,6 +512,9 @@ func run(c Case, cc *kit.Case) {
 	}()...) {
 		filtered, unfiltered := false, false
 		for _, f := range d.Froms {
+			if f.Pres > 0 {
+				cc.Label("where-isPresent")
+			}
 			if f.M != "" {
 				filtered = true
 			} else {
@@ -585,6 +618,7 @@ var assumptions = []string{
 	"for a task stopped on the way, points still in the ingest buffer when the stop is requested may go either way (C07 covers the stopping task itself); with quiescence observed before the stop they must all be delivered",
 	"a from() chained below another from() selects from what the parent selects (both filters apply); a write without a retention policy is a write to TaskMaster.DefaultRetentionPolicy (task_master.go WritePoints; the daemon sets it from its configuration)",
 	"where() filters compare the integer field v; one point in six carries u instead: a condition that cannot be evaluated for a point does not select it",
+	"isPresent(ref) is defined for a point that lacks ref (CHANGELOG #1203: 'isPresent operator for verifying whether a value is present'; the repository's TestStream_Eval_Missing_isPresent filters points that lack the field with where(lambda: isPresent(...))): a where() made only of isPresent()/!isPresent() terms (combined with AND/OR, every term defined for every point) selects by presence alone - a point lacking the field is selected by !isPresent(field); every point carries the tag src, none carries host or w",
 }
 
 func TestRouting(t *testing.T) {
